@@ -16,6 +16,7 @@
       elements);
     - exceptions: a path that ends in [ERaise] is outside the property. *)
 From stdpp Require Export base list strings option.
+From Coq Require Import Ascii.
 Local Open Scope string_scope.
 
 Inductive ev :=
@@ -182,8 +183,12 @@ Definition is_simple (e : ev) : bool :=
   | ERef _ | EDeref _ | EReturnOther | ERaise => true
   | _ => false
   end.
-Definition ends_in_raise (p : list ev) : bool :=
-  match last p with Some ERaise => true | _ => false end.
+Fixpoint ends_in_raise (p : list ev) : bool :=
+  match p with
+  | [] => false
+  | [ERaise] => true
+  | _ :: p' => ends_in_raise p'
+  end.
 
 (** root variable of an access path: ["u.node"] -> ["u"] *)
 Fixpoint root_aux (s : string) : string :=
@@ -209,13 +214,12 @@ Definition balanced_in (m : method) (p : list ev) : bool :=
   match m_api m with
   | Some up => api_path_ok up (m_params m) p
   | None =>
-      NoDup_dec_bool (wraps p) &&
+      bool_decide (NoDup (wraps p)) &&
       match run (m_kind m) (m_params m) p [] with
       | OCont h => emptyb h        (* fell off the end: `return None` *)
       | ODone ok => ok
       end
-  end
-where "'NoDup_dec_bool' l" := (bool_decide (NoDup l)).
+  end.
 
 Definition paths (m : method) : list (list ev) := m_paths m.
 Definition balanced (m : method) (p : list ev) : bool := balanced_in m p.
@@ -271,14 +275,15 @@ Definition wrap_path_ok (params : list string) (p : list ev) : bool :=
   | _ => false
   end.
 
+Definition no_paths (l : list (list ev)) : bool := match l with [] => true | _ => false end.
+
 Definition handle_ok (h : handle) : bool :=
   (if bool_decide (h_ctor h = "wrap")
-   then negb (emptyb_paths (h_wrap h)) && forallb (wrap_path_ok (h_wrap_params h)) (h_wrap h)
-   else bool_decide (h_ctor h = "Function") && emptyb_paths (h_wrap h)) &&
+   then negb (no_paths (h_wrap h)) && forallb (wrap_path_ok (h_wrap_params h)) (h_wrap h)
+   else bool_decide (h_ctor h = "Function") && no_paths (h_wrap h)) &&
   init_ok (h_init_params h) (h_init h) &&
   dealloc_ok (h_dealloc h) &&
-  (emptyb_paths (h_dealloc_copy h) || dealloc_ok (h_dealloc_copy h))
-where "'emptyb_paths' l" := (match l with [] => true | _ => false end).
+  (no_paths (h_dealloc_copy h) || dealloc_ok (h_dealloc_copy h)).
 
 (** ** What is handed to Python *)
 Inductive retk := RWrapped (x : string) | RNodeRaw (x : string) | ROther.
